@@ -33,7 +33,7 @@ mod_config = {
     "QPSK": mod_params(2, 1, 2, 1, 1),
     "16QAM": mod_params(4, 2, 4, 2, 2),
     "64QAM": mod_params(6, 4, 6, 3, 3),
-    "256QAM": mod_params(8, 8, 8, 5, 4)}
+    "256QAM": mod_params(8, 8, 8, 4, 4)}
 
 def _quadratic_form(y, F):
     r"""Convert :math:`O(v) = ||y - F v||^2` to sparse quadratic form.
